@@ -232,6 +232,7 @@ class Repo(object):
         if not os.environ.get("VERIF_NO_ALIASES"):
             from . import aliases
             sites = aliases.rebinding_sites([m.tree for m in self.modules.values()])
+            meths = aliases.method_names([m.tree for m in self.modules.values()])
 
             def related(cls, _h=hier_cur):
                 # the class, its ancestors and its descendants (not its siblings)
@@ -246,7 +247,8 @@ class Repo(object):
                           if isinstance(n, FuncTypes) and (k not in refu or ast.dump(n) != ast.dump(refu[k]))]
                 if differ:
                     keep = {ast.unparse(n_) for n_ in ast.walk(ref[name]) if isinstance(n_, ast.Assign)}
-                    got = aliases.write_back(mod.tree, related, sites, only=differ, keep=keep)
+                    keep |= {"def " + n_.name for n_ in ast.walk(ref[name]) if isinstance(n_, FuncTypes)}
+                    got = aliases.write_back(mod.tree, related, sites, only=differ, keep=keep, methods=meths)
                     if got:
                         self.simplified.setdefault(name, []).extend("alias " + g for g in got)
                         ast.fix_missing_locations(mod.tree)
